@@ -1,18 +1,28 @@
 """C12 (cross-hierarchy tracing returns exactly the electrically connected net): bounded stand-in on get_hwires/get_hcables/get_hpins with selection."""
-from props import _designb
-LEVEL = 'exploration'
+from props import _designb, _pv
+LEVEL = 'other'
 PID = 'C12'
 RULE = ('distinct = distinct abstract design (hash of the AD); non-trivial = hierarchy depth >= 2 and at least one hierarchical pin wired '
         'on both sides')
 
 
 def run(rep, tier, seed):
-    rep.explanation = 'bounded stand-in only: selection ALL from hierarchical wires, cables, pins and ports versus union-find classes over hierarchical wires; INSIDE/OUTSIDE from pins and ports; get_hpins of a hierarchical wire'
+    expl_b = 'selection ALL from hierarchical wires, cables, pins and ports versus union-find classes over hierarchical wires; INSIDE/OUTSIDE from pins and ports; get_hpins of a hierarchical wire'
     rep.assumptions = ['Tier B: everything outside the stated bounds is unexplored (DESIGN.md 8.12)',
                        'oracles (canon / elab / occurrence enumeration / Inv) read public attributes only and are calibrated against an AD-level elaborator']
+    failed = _pv.run_suite(rep, PID, 'hwires', tier)
+    rep.explanation = ('adjacency steps (P): _get_inner_hwire_from_hpin / _get_outer_hwire_from_hpin return exactly the reference of the wire attached on the inside / '
+                       'outside of a hierarchical pin (same instance path resp. the path of the parent instance, the wire\'s cable, the wire) and None exactly when there '
+                       'is no such wire, never raising and writing nothing, for all heaps and all well-typed pin references -- the INSIDE / OUTSIDE answers of the '
+                       'statement; the closure (selection ALL: a work-list over these steps through generators) and the pins of a wire: bounded stand-in: ' + expl_b)
     fails = _designb.run_designs(rep, PID, tier, seed, RULE, extra_bounds={'start_points_per_design': '<= 40 wires, <= 40 pins, <= 20 cables, <= 20 ports'})
     _designb.report_failures(rep, PID, fails)
+    _pv.report_failed(rep, failed)
+    rep.trusted = list(getattr(rep, 'trusted', []) or []) + ['pyvc VC generator (DESIGN.md 3), z3/cvc5', 'IR heap model; reference nodes as heap objects with a parent node and an item']
+    rep.assumptions += ['HRef.from_parent_and_item(p, x) returns a node whose parent is p and whose item is x (contract of the flyweight factory; sharing is checked by the bounded tier of C11)',
+                        'the argument is a hierarchical pin: nodes for an inner pin, its port and an instance']
 
 
 def replay(path):
+    if _pv.replay_obligation(path): return 0
     return _designb.replay(path, PID)
